@@ -162,6 +162,57 @@ func propC04(r *Run) {
 			r.Logf("#%d %s", k, line)
 			r.Nontrivial(fmt.Sprintf("%s|%s|%s|%v", u, pw, stored[u], fault))
 		}
+		// concurrent phase: several connections at once on all listeners, mixed right and wrong
+		// credentials; the store is static, so every answer must be the reference verdict for
+		// exactly the credentials that connection submitted
+		d, derr := lib.NewDirFromConfig(cfgPath)
+		if derr != nil {
+			r.Fail("harness/config", "%v", derr)
+		}
+		type expect struct {
+			c    *Call
+			want bool
+		}
+		var exps []expect
+		for i := 0; i < 2+r.Choose("nconc", 6); i++ {
+			var plan []*Call
+			for k := 0; k < 1+r.Choose("nconc-calls", 2); k++ {
+				u := users[r.Choose("conc-user", len(users))]
+				pw := stored[u]
+				if r.Choose("conc-right", 2) == 0 {
+					pw = c04Passwords[r.Choose("conc-pw", len(c04Passwords))]
+				}
+				via := []string{"agent", "sasl", "ldap", "basic", "api"}[r.Choose("conc-via", 5)]
+				if pw == "" || len(pw) > 256 || len(u) > 256 || !utf8.ValidString(pw) || strings.Contains(u, ":") {
+					via = "agent"
+				}
+				if via == "agent" && pw == "" {
+					continue
+				}
+				c := &Call{Kind: "authenticate", Via: via, Agent: a.idx, User: u, PW: pw}
+				ref := u
+				if via == "ldap" {
+					ref, _, _ = strings.Cut(u, "@") // LDAP: the bind name up to the first '@'
+				}
+				want, _, _, _, _ := d.Authenticate(ref, pw)
+				exps = append(exps, expect{c, want})
+				plan = append(plan, c)
+			}
+			if len(plan) > 0 {
+				w.addClient(plan)
+			}
+		}
+		w.runLoop(loopOpts{maxSteps: 3000, wClient: 3, wLoop: 3})
+		if wedge := w.drain(nil); wedge != "" {
+			r.FailOther("C10", wedgeSignature(wedge), "%s", wedge)
+			return
+		}
+		for _, e := range exps {
+			if e.c.OK != e.want {
+				r.Fail("frontend/concurrent-answer-mixed-up/"+e.c.Via, "with %d requests in flight, %s got ok=%v; the store's verdict for exactly these credentials is %v", len(exps), e.c, e.c.OK, e.want)
+			}
+		}
+		r.Add("frontend-probes", len(exps))
 		r.Steps += nprobe * 5
 		r.Sample(map[string]any{"config": cfg.Desc(), "probes": trace[:min(len(trace), 6)]})
 	})
